@@ -1,5 +1,5 @@
 CONSTANTS
-  Variant = "fixed"
+  Variant = "codeGzip"
   EncSet = {"identity", "gzip", "br", "zstd", "deflate", "snappy"}
   Sides = {"D", "C"}
   Grammars = {"free", "pool", "tracer", "raw"}
